@@ -338,6 +338,12 @@ def obligations(tier, seed):
                             extra={"models": ["Option::is_none_or(filter, closure): true without a filter, else the inlined closure, whose WhitelistedHosts::recognize call has a symbolic result", "from_http_request: recorded call with symbolic Option"]},
                             replay=dict(scenario="c14_authority_sources", vars={}, fixed={}, region=z3.BoolVal(True))))
     out += _layer_enabled(srv)
+    # "answered 403 - or 400 when no single authority can be determined": the statuses the two refusals carry
+    from .httpstatus import obligation as _status
+    for helper, code, scen in (("host_not_allowed", 403, "c14_ports"), ("malformed", 400, "c14_authority_sources")):
+        out.append(_status(srv, helper, f"kernel:response::{helper}:status-{code}", (lambda c: lambda s: s == c)(code),
+                           f"the response built by response::{helper} carries HTTP status {code}",
+                           dict(scenario=scen, vars={}, fixed={}, region=z3.BoolVal(True)), f"status-{code}"))
     return out
 
 
